@@ -411,7 +411,7 @@ example : hydrateKids 25 serverDoc (ssrOfList σ0 inst0).2 = .ok hydratedDoc
 
 /-- an EMPTY dynamic text: the server renders `t`-comment, (no text node), empty comment; the hydrating
 build replaces the empty comment — the next sibling of the `t` comment — by the new text node.  (Cannot
-arise from `natToStr`, but `adoptText` and the theorems cover it.) -/
+arise from `dynTextStr`, but `adoptText` and the theorems cover it.) -/
 example : hydrateKids 9 (mergeCh [.text [7], .cmt [116], .text [], .cmt [], .text [8]])
     [.textStatic, .textDynamic [], .textStatic] = .ok [.text [7], .text [], .text [8]] := by
   rw [mergeCh_eq]; decide
